@@ -1,4 +1,4 @@
-use crate::store_impl::ActionOp;
+use crate::store_impl::{ActionOp, PendingTask};
 use crate::{StoreError, StoreImpl};
 use std::sync::Arc;
 
@@ -46,7 +46,9 @@ where
         match self.pool.lock() {
             Ok(pool) => {
                 if let Some(pool) = pool.as_ref() {
+                    let pending = PendingTask::new(&self.pending_tasks);
                     pool.execute(move || {
+                        let _pending = pending;
                         thunk(dispatcher);
                     })
                 }
@@ -61,7 +63,9 @@ where
         match self.pool.lock() {
             Ok(pool) => {
                 if let Some(pool) = pool.as_ref() {
+                    let pending = PendingTask::new(&self.pending_tasks);
                     pool.execute(move || {
+                        let _pending = pending;
                         task();
                     })
                 }
